@@ -96,7 +96,7 @@ func (ex *Exec) registerIntrinsics() {
 		k := ex.str(a[0])
 		v, ok := ex.cfg[k]
 		if !ok {
-			panic(abortPath{"missing cfg int " + k})
+			return ex.c64(0) // absent keys read as 0
 		}
 		switch x := v.(type) {
 		case int:
